@@ -29,7 +29,11 @@ fn build_and_write(plan: &Plan, key: u64) -> Built {
 }
 
 fn build_and_write_probed(plan: &Plan, key: u64, probes: u64) -> Built {
-    realise_probed(plan, key, probes, |c| {
+    build_and_write_with(plan, key, probes, 0)
+}
+
+fn build_and_write_with(plan: &Plan, key: u64, probes: u64, ctors: u64) -> Built {
+    realise_with(plan, key, probes, ctors, |c| {
         let size = guarded_size(c);
         let n = match &size {
             Some(WRes::Ok(n)) => (*n).min(1 << 20),
@@ -245,8 +249,10 @@ fn run_case(spec: &Spec, tape: &mut Tape, key_canon: u64, key_var: u64) -> Resul
     // of the history are part of "how", not of "what was configured"
     let probes = if tape.choose(3) == 2 { tape.value() as u64 | ((tape.value() as u64) << 32) } else { 0 };
     let shape = fnv1a(FNV_INIT, format!("{}{}", shape_of(&variant), if probes != 0 { "+probed" } else { "" }).as_bytes());
+    // constructor forms: `X::builder(..)` or the public sibling (`XBuilder::new` / `::default()`)
+    let ctors = if tape.choose(3) == 2 { tape.value() as u64 | ((tape.value() as u64) << 32) } else { 0 };
     let a = build_and_write(&canonical, key_canon);
-    let b = build_and_write_probed(&variant, key_var, probes);
+    let b = build_and_write_with(&variant, key_var, probes, ctors);
     let mut log = vec![format!("canonical: {canonical:?}"), format!("variant:   {variant:?}"), format!("canonical -> size {:?} write {:?} bytes {}", a.size, a.write, hex(&a.bytes)), format!("variant   -> size {:?} write {:?} bytes {}", b.size, b.write, hex(&b.bytes))];
     log.truncate(6);
     let kind = spec.kind_name();
